@@ -938,6 +938,8 @@ def gen_known_spec(rng, tier, kind):
         f = blank_field('escd', type=tid, default=gen_const(rng, tid, special=rng.choice(ESCAPED)))
         if tid.endswith('_n'):
             f['length'] = '12'
+            # a fixed-width value has no pad character at either end (C01's wf: `strip(' ')` is how the field is read back)
+            f['default'] = f['default'].strip(' ') or 'x' + rng.choice(ESCAPED)
         m['fields'].append(f)
     elif kind == 'unescaped-quote-in-literal':
         if rng.random() < 0.5:
